@@ -137,6 +137,21 @@ def corruptions(case, rng):
     if len(shapes) >= 1:
         out.append(("tensor_removed", base[0], shapes[:-1], dict(sizes)))
     out.append(("tensor_added", base[0], shapes + [[2]], dict(sizes)))
+    # rule-level edits
+    if case["fam"] == "dot":
+        b = [i for i, t in enumerate(ins) if "[" in t]
+        if b:
+            out.append(("dot_axis_in_three_inputs", rebuild(ins + [list(ins[b[0]])], outs), shapes + [list(shapes[b[0]])], dict(sizes)))
+    if case["fam"] == "preserve" and len(case["ins"][0]["brshape"]) == 2:
+        out.append(("sort_with_two_brackets", base[0], shapes, dict(sizes), "sort"))
+    if case["fam"] == "get_at":
+        n = len(case["ins"][0]["brshape"])
+        wrong = "1" if n == 2 else "2"
+        i2 = [list(t) for t in ins]
+        i2[1] = [wrong if t == str(n) else t for t in i2[1]]
+        s2 = [list(x) for x in shapes]
+        s2[1] = [int(wrong) if (v == n and ins[1][0] == "[" and j == 0) or (v == n and ins[1][-1] == "]" and j == len(shapes[1]) - 1) else v for j, v in enumerate(shapes[1])]
+        out.append(("coordinate_count_mismatch", rebuild(i2, outs), s2, dict(sizes)))
     # expression-level edits
     dims = expr_dims(ins[k])
     if dims:
@@ -184,7 +199,9 @@ def corrupt_chunk(items):
     for it in items:
         case, op = it["case"], it["op"]
         rng = np.random.default_rng(it["seed"])
-        for edit, toks, shapes, kw in corruptions(case, rng):
+        for cor in corruptions(case, rng):
+            edit, toks, shapes, kw = cor[:4]
+            op = cor[4] if len(cor) > 4 else it["op"]
             tensors = []
             for kk, sh in enumerate(shapes):
                 if case["fam"] in ("get_at", "update_at") and kk == 1:
